@@ -17,6 +17,8 @@
 //	sub       Subscriber.SyncAdChain: result, requests after the head request, latest-sync
 //	gethist   several head queries through ONE Syncer (each step judged as if it were the first)
 //	subhist   several SyncAdChain calls on ONE Subscriber (latest-sync threaded through)
+//	both      every sub / subhist observation against C03's model AND C01's model of the chain
+//	          sync that follows (request log, latest-sync, store threaded through a history)
 //
 // Direct oracles (Go only, from the property text): see oracle.go.
 package main
@@ -89,6 +91,7 @@ func main() {
 	c.Family("sub", req, "sub_case_ok", 200)
 	c.Family("gethist", req, "gethist_case_ok", 60)
 	c.Family("subhist", req, "subhist_case_ok", 40)
+	c.Family("both", []string{"From Lib Require Import Cid SymCrypto.", "From Model Require Import C03_SignedHead Compose_C03_C01."}, "both_case_ok", 150)
 
 	pool = keypool.New(c.Rng.Fork("pool"), 3)
 	serverKey, err := keypool.Gen(c.Rng.Fork("server"), "ed25519")
